@@ -225,6 +225,7 @@ def ldpcFinish (IO : SymIO σ) (s : Session σ) (p : Params) : Status × Session
 
 inductive Op
   | case_
+  | align
   | nullses
   | new (sid codec role : Nat)
   | params (sid : Nat) (p : Params)
@@ -276,6 +277,7 @@ def step (IO : SymIO σ) (w : World σ) (op : Op) : World σ × String :=
   let put (sid : Nat) (s : Session σ) (w : World σ) : World σ := { w with ses := w.ses.set sid (some s) }
   match op with
   | .case_ => (w, "ok")
+  | .align => (w, "ok")
   | .nullses => (w, "ok params=FATAL cb=FATAL build=FATAL recv=FATAL avail=FATAL finish=FATAL complete=0 sources=FATAL ctrl=FATAL")
   | .new sid codec role =>
     if codec == 1 || codec == 2 || codec == 3 then
